@@ -178,3 +178,26 @@ Proof.
   unfold below at 1. cbn [p_flushing p_store]. rewrite Em. fold (buf_get (p_mem st) k).
   destruct (buf_get (p_mem st) k) as [v|]; [reflexivity|]. apply wait_below. exact H.
 Qed.
+
+(* ---------- batch get ---------- *)
+Lemma batch_loop_map st keys : forall c k,
+  kv_get (fst (p_batch_loop st keys c)) k = if key_mem k keys then p_lookup st k else None.
+Proof.
+  induction keys as [|k0 r IH]; intros c k; cbn [p_batch_loop key_mem fst]; [reflexivity|].
+  specialize (IH ((k0, match p_local st k0 with Some v => Some v | None => kv_get (p_store st) k0 end) :: c) k).
+  destruct (p_batch_loop st r _) as [m c'] eqn:L. cbn [fst] in IH |- *.
+  change (match p_local st k0 with Some v => Some v | None => kv_get (p_store st) k0 end) with (p_lookup st k0).
+  destruct (bytes_eqb k0 k) eqn:E; cbn [orb].
+  - apply bytes_eqb_eq in E; subst k0. destruct (p_lookup st k) as [v|] eqn:P.
+    + cbn [kv_get]. rewrite eqb_refl. reflexivity.
+    + rewrite IH. destruct (key_mem k r); reflexivity.
+  - destruct (p_lookup st k0); [cbn [kv_get]; rewrite E|]; exact IH.
+Qed.
+
+Lemma p_batch_get_map st keys k :
+  kv_get (fst (p_batch_get st keys)) k = if key_mem k keys then p_lookup st k else None.
+Proof.
+  unfold p_batch_get.
+  pose proof (batch_loop_map st keys (match p_cache st with Some c => c | None => [] end) k) as H.
+  destruct (p_batch_loop st keys _) as [m c]. exact H.
+Qed.
